@@ -169,6 +169,24 @@ def run_prog_case(case):
     return ('ok', [complex(t) for t in v], [float(t) for t in np.asarray(info.error_estimate).ravel()], probs, tame)
 
 
+def run_single_case(case):
+    """a scalar step gives ONE finite-difference estimate: no extrapolation, the error estimate comes from the
+    single-estimate branch of Richardson; it must still cover the (pure truncation) error, in particular where the exact
+    derivative vanishes"""
+    vlib.use_repo()
+    import numdifftools as nd
+    pi, m, n, h, a = case
+    r = RECS[pi]
+    c = r['c'][0] / r['c'][1]
+    f = exprs.make_fun(r['prog'], c, a)
+    try:
+        with np.errstate(all='ignore'):
+            v, info = nd.Derivative(f, n=n, method=m, order=2, step=h, full_output=True)(a)
+        return ('ok', float(np.real(v)), float(np.ravel(info.error_estimate)[0]))
+    except Exception as ex:
+        return ('raise', '%s: %s' % (type(ex).__name__, str(ex)[:120]))
+
+
 def run_multi_case(case):
     vlib.use_repo()
     import numdifftools as nd
@@ -237,6 +255,33 @@ def run(tier, rep):
                 rep.violation('dishonest:%s:n=%d' % (m, n), dict(prog=r['prog'], c=r['c'], a=a, method=m, n=n, order=order, step=[kind, sk], got=[v.real, v.imag], exact=exact, error_estimate=e, floor=floor),
                               '%s: |result - exact| = %.3g but error_estimate = %.3g (K = %g, floor %.3g)' % (name, err, e, K_HONEST, floor))
                 break
+    # single-estimate calls (scalar step)
+    rnds = random.Random(seed + 3)
+    scases = []
+    for pi, r in enumerate(uniq):
+        if not r['entire'] or (tier == 'quick' and rnds.random() > 0.5):
+            continue
+        for m in ('central', 'forward', 'backward', 'complex'):
+            n = rnds.choice([1, 2])
+            if len(r['jet']) > n:
+                scases.append((pi, m, n, rnds.choice([1e-3, 1e-4, 1e-5]), rnds.choice([0.0, 1.0, -0.125, 3.0])))
+    KS = ENV['honesty']['K_single']
+    single_worst, nsingle, nzero = 0.0, 0, 0
+    for (pi, m, n, h, a), o in zip(scases, vlib.pool_map(run_single_case, scases, chunksize=32)):
+        if o[0] != 'ok' or not np.isfinite(o[1]):
+            continue
+        r = uniq[pi]
+        exact = exprs.exact_derivative(r['jet'], n)
+        s0 = max(abs(t) for t in exprs.jet_floats(r['jet']))
+        floor = 1e3 * np.finfo(float).eps * s0 / h ** n
+        err = abs(o[1] - exact)
+        nsingle += 1
+        nzero += exact == 0
+        if err > floor:
+            single_worst = max(single_worst, err / max(o[2], 1e-300))
+        if not (o[2] >= 0 and err <= KS * o[2] + floor):
+            rep.violation('dishonest:single-estimate:%s' % m, dict(prog=r['prog'], c=r['c'], a=a, method=m, n=n, step=h, got=o[1], exact=exact, error_estimate=o[2]),
+                          '%s @ c=%s a=%r | %s n=%d step=%g (one estimate): |result - exact| = %.3g but error_estimate = %.3g (exact derivative %r)' % ('.'.join(r['prog']), '/'.join(map(str, r['c'])), a, m, n, h, err, o[2], exact))
     sres, stage_worst = stage_honesty(rep)
     bres, nbest = best_stage(rep, tier)
     # multivariate classes
@@ -299,7 +344,7 @@ def run(tier, rep):
                samples=[dict(prog=uniq[12]['prog'], c=uniq[12]['c']), dict(pipeline=pres.records[100])], evaluations=nchk,
                distinct_nontrivial=len(ratios) + nrec // 2,
                rule='Pipeline: every (S<=26, rule length, Richardson terms, columns) exhaustively; replay: the C01 program/config sample (including cases outside the tame domain) and MC_Multi cases for Gradient/Jacobian/Hessdiag/Hessian; non-trivial = result beyond the accuracy floor (the estimate has to cover it)',
-               K=K_HONEST, K_stage=ENV['honesty']['K_stage'], stage_sequences=len(sres.records), selection_tables_replayed=nbest, stage_worst_error_over_estimate=stage_worst, tlc=per)
+               K=K_HONEST, K_stage=ENV['honesty']['K_stage'], stage_sequences=len(sres.records), selection_tables_replayed=nbest, single_estimate_calls=nsingle, single_estimate_zero_derivative=int(nzero), single_estimate_worst_ratio=single_worst, stage_worst_error_over_estimate=stage_worst, tlc=per)
     assum = ['honesty bound |err| <= K*error_estimate + floor*sigma with K and floor from envelopes.json',
              'record clauses use public information only: info tuple, d.step(...) regenerated, rule length from the object\'s LogRule']
     return cov, assum
